@@ -96,6 +96,7 @@ type Driver struct {
 	Trace    []string
 	keepTrace bool
 	PollNo   int
+	HoldData bool
 	SettleExhausted bool
 	lastPoll time.Time
 	Hold     map[int]bool // clients the profile's own run loop has not released yet
@@ -323,6 +324,9 @@ func (d *Driver) releasable(bc *BConn) int {
 	for i, r := range bc.Pending {
 		if r.HoldFor < 0 {
 			break
+		}
+		if d.HoldData && r.Kind == "data" {
+			break // the profile's own run loop releases data replies explicitly (enumerated arrival orders)
 		}
 		if r.HoldFor > 0 && now.Before(r.ReadyAt) {
 			break
